@@ -11,8 +11,9 @@ EXTENDS Integers, Sequences, FiniteSets, TLC, Json
 
 CONSTANTS MaxHist, GenPrint
 
-VARIABLES cfg, api, libfds, callerClosed, obs, hist
-vars == <<cfg, api, libfds, callerClosed, obs, hist>>
+VARIABLES cfg, api, libfds, callerClosed, obs, hist,
+          gen      \* a chunk generator started on the open file: [kind, taken] (kind "none": no generator; taken: chunks consumed)
+vars == <<cfg, api, libfds, callerClosed, obs, hist, gen>>
 
 Sources == {"path", "stream"}
 IndexKinds == {"none", "index", "mismatch", "indexonly"}
@@ -45,7 +46,7 @@ Act(o) == /\ obs' = o /\ hist' = Append(hist, o)
 CanAct == Len(hist) < MaxHist
 
 Init == /\ cfg \in Cfgs /\ api = "none" /\ libfds = {} /\ callerClosed = FALSE
-        /\ obs = [op |-> "none"] /\ hist = <<>>
+        /\ obs = [op |-> "none"] /\ hist = <<>> /\ gen = [kind |-> "none", taken |-> 0]
 
 \* TdmsFile.read / TdmsFile.read_metadata: everything the library opened is closed when the call returns or raises
 ReadCall(kind) ==
@@ -55,7 +56,7 @@ ReadCall(kind) ==
      /\ api' = IF raises THEN "failed"
                ELSE IF kind = "read" /\ cfg.index # "indexonly" THEN "eager" ELSE "meta"     \* index only: no data to load
      /\ libfds' = {}
-  /\ UNCHANGED <<cfg, callerClosed>>
+  /\ UNCHANGED <<cfg, callerClosed, gen>>
 
 \* TdmsFile.open: on success the data file stays open (the library-opened index is already closed)
 OpenCall ==
@@ -65,37 +66,37 @@ OpenCall ==
           /\ api' = "open_failed" /\ libfds' = Opened(cfg)
      ELSE /\ Act([op |-> "open", raises |-> FALSE, fds |-> Opened(cfg), atmost |-> TRUE])    \* while open: at most these
           /\ api' = "lazy" /\ libfds' = AfterMeta(cfg)
-  /\ UNCHANGED <<cfg, callerClosed>>
+  /\ UNCHANGED <<cfg, callerClosed, gen>>
 
 \* a read that needs the file, on the open object
 ReadData ==
   /\ CanAct /\ api = "lazy"
   /\ Act([op |-> "read_data", raises |-> DataFault(cfg) \/ cfg.index = "indexonly", fds |-> Opened(cfg), atmost |-> TRUE])
-  /\ UNCHANGED <<cfg, api, libfds, callerClosed>>
+  /\ UNCHANGED <<cfg, api, libfds, callerClosed, gen>>
 
 \* close() or leaving the with-block; may be repeated
 Close(how) ==
   /\ CanAct /\ api \in {"lazy", "closed"}
   /\ Act([op |-> how, raises |-> FALSE, fds |-> {}])
   /\ api' = "closed" /\ libfds' = {}
-  /\ UNCHANGED <<cfg, callerClosed>>
+  /\ UNCHANGED <<cfg, callerClosed, gen>>
 
 ReadAfterClose ==
   /\ CanAct /\ api = "closed"
   /\ Act([op |-> "read_data", raises |-> TRUE, fds |-> {}])
-  /\ UNCHANGED <<cfg, api, libfds, callerClosed>>
+  /\ UNCHANGED <<cfg, api, libfds, callerClosed, gen>>
 
 \* eager data lives in memory and stays readable after the file was closed by the constructor
 ReadEager ==
   /\ CanAct /\ api = "eager"
   /\ Act([op |-> "read_data", raises |-> FALSE, fds |-> {}])
-  /\ UNCHANGED <<cfg, api, libfds, callerClosed>>
+  /\ UNCHANGED <<cfg, api, libfds, callerClosed, gen>>
 
 \* only metadata was read (read_metadata, or read of an index file alone): the file is closed, data reads raise
 ReadMetaOnly ==
   /\ CanAct /\ api = "meta"
   /\ Act([op |-> "read_data", raises |-> TRUE, fds |-> {}])
-  /\ UNCHANGED <<cfg, api, libfds, callerClosed>>
+  /\ UNCHANGED <<cfg, api, libfds, callerClosed, gen>>
 
 \* TdmsWriter used as a context manager on a path / stream, with or without index file; the body may raise.
 \* A writer given a path may be entered again after its block was left: each block opens and closes its own files
@@ -106,16 +107,33 @@ WriterWith(bodyRaises) ==
   /\ Act([op |-> "writer_with", raises |-> bodyRaises, fds |-> {},
           during |-> IF cfg.source = "stream" THEN {} ELSE IF cfg.index = "index" THEN {"data", "index"} ELSE {"data"}])
   /\ api' = "written" /\ libfds' = {}
-  /\ UNCHANGED <<cfg, callerClosed>>
+  /\ UNCHANGED <<cfg, callerClosed, gen>>
+
+\* a chunk generator (channel.data_chunks() / TdmsFile.data_chunks()) is started on the open file and `taken' chunks
+\* are consumed (the input file has three chunks: two in its first segment, one in the second)
+StartStream ==
+  /\ CanAct /\ api = "lazy" /\ gen.kind = "none" /\ ~DataFault(cfg) /\ cfg.index # "indexonly"
+  /\ \E kd \in {"chan", "file"} : \E m \in {1, 2} :
+        /\ gen' = [kind |-> kd, taken |-> m]
+        /\ Act([op |-> "stream_start", kind |-> kd, taken |-> m, raises |-> FALSE, fds |-> Opened(cfg), atmost |-> TRUE])
+  /\ UNCHANGED <<cfg, api, libfds, callerClosed>>
+\* resuming it after close() is a read that needs the file: it raises, wherever the generator stands (inside a segment
+\* or at a segment boundary) and whoever supplied the file (path or caller's stream)
+StreamNextAfterClose ==
+  /\ CanAct /\ api = "closed" /\ gen.kind # "none"
+  /\ Act([op |-> "stream_next", raises |-> TRUE, fds |-> {}])
+  /\ gen' = [kind |-> "none", taken |-> 0]
+  /\ UNCHANGED <<cfg, api, libfds, callerClosed>>
 
 \* write_segment on a writer whose block was left: refused, and nothing is (re)opened
 WriterLateWrite ==
   /\ CanAct /\ api = "written"
   /\ Act([op |-> "late_write", raises |-> TRUE, fds |-> {}])
-  /\ UNCHANGED <<cfg, api, libfds, callerClosed>>
+  /\ UNCHANGED <<cfg, api, libfds, callerClosed, gen>>
 
 Next == \/ ReadCall("read") \/ ReadCall("read_metadata") \/ OpenCall \/ ReadData \/ Close("close") \/ Close("exit_with")
         \/ ReadAfterClose \/ ReadEager \/ ReadMetaOnly \/ WriterWith(FALSE) \/ WriterWith(TRUE) \/ WriterLateWrite
+        \/ StartStream \/ StreamNextAfterClose
 Spec == Init /\ [][Next]_vars
 
 (* ------------------------------ properties ------------------------------ *)
